@@ -46,9 +46,28 @@ def hostile_bytes(rng):
     return bytes(ft + pc.varint(rng.choice(LEN_BOUNDARY)) + bytes(wire[len(ft) + 1:]) + pc.rand_bytes(rng, rng.choice([0, 2, 8])))
 
 
+def widened_op(rng):
+    """a VALID frame in a legal non-minimal encoding (wider varints, RFC 9000 §16): the decoder must return the same value"""
+    code, f = pc.rand_frame(rng, small=rng.random() < 0.6)
+    if pc.STREAM <= code <= pc.STREAM + 7:
+        code = pc.STREAM | (4 if f[1] else 0) | (2 if f[2] else 0) | (1 if f[3] else 0)
+    wire = pc.encode_frame(code, f, enc=pc.widening_encoder(rng))
+    p = rng.choice(pc.allowed_ptypes(code))
+    no_len = (pc.STREAM <= code <= pc.STREAM + 7 and not (code & 2)) or code == pc.DATAGRAM
+    tail = b"" if no_len else pc.rand_bytes(rng, rng.choice([0, 0, 2, 7]))
+    return (1, [p, wire + tail]), ("W", code, list(f), len(wire))
+
+
 def gen_case(rng, name, n=16):
     ops = []
+    meta = []
     for _ in range(n):
+        if rng.random() < 0.2:
+            op, m = widened_op(rng)
+            ops.append(op)
+            meta.append(m)
+            continue
+        meta.append(None)
         b = hostile_bytes(rng)
         p = rng.randint(0, 3)
         r = rng.random()
@@ -61,10 +80,12 @@ def gen_case(rng, name, n=16):
             ops.append((6, [p, b]))
         else:
             ops.append((5, [pc.rand_bytes(rng, rng.randint(0, 9))]))
-    return Case(name, ops)
+    return Case(name, ops, meta={"m": meta})
 
 
 def oracle(case, obs):
+    if obs == ["! missing"]:
+        return None
     if len(obs) != len(case.ops):
         return "length: %d observations for %d ops (%s)" % (len(obs), len(case.ops), obs[-1] if obs else "")
     for k, ((tag, args), line) in enumerate(zip(case.ops, obs)):
@@ -72,6 +93,17 @@ def oracle(case, obs):
             return "abnormal: op %d -> %s (decoder panicked or hung on %d input bytes)" % (k, line, len(args[-1]))
         v = [int(x) for x in line.split()]
         n = len(args[-1])
+        mm = (case.meta.get("m") or [None] * len(case.ops))[k]
+        if mm is not None and mm[0] == "W":
+            code, f, wlen = mm[1], mm[2], mm[3]
+            # u32-accessor fields of the traversal frames are printed modulo 2^32 by both sides; values here are < 2^32
+            if v[0] != 0:
+                return "misframe: op %d a valid frame 0x%x in non-minimal encoding is rejected: %s" % (k, code, v[:3])
+            if v[1] != wlen:
+                return "misframe: op %d frame 0x%x in non-minimal encoding consumed %d of its %d bytes" % (k, code, v[1], wlen)
+            if v[2] != code or v[3:] != f:
+                return "misframe: op %d frame 0x%x in non-minimal encoding decoded to a different value (%s…)" % (k, code, v[2:10])
+            continue
         if tag == 1:
             if v[0] == 0:
                 if not (0 < v[1] <= n):
@@ -199,6 +231,8 @@ def gen_pkt_case(rng, name, n=14):
 
 
 def pkt_oracle(case, obs):
+    if obs == ["! missing"]:
+        return None
     if len(obs) != len(case.ops):
         return "length: %d observations for %d ops (%s)" % (len(obs), len(case.ops), obs[-1] if obs else "")
     for k, ((tag, args), line) in enumerate(zip(case.ops, obs)):
@@ -210,6 +244,9 @@ def pkt_oracle(case, obs):
         if tag == 10:
             if v[0] == 0 and not (0 < v[2] <= n and 0 <= v[3] <= v[2]):
                 return "bounds: op %d packet total %d offset %d in a %d-byte datagram" % (k, v[2], v[3], n)
+            if v[0] == 0 and v[1] in (2, 3, 4, 5) and v[2] - v[3] < 20:
+                return ("undersampled: op %d a protected packet with only %d bytes after the header was accepted "
+                        "(header-protection removal needs 4 + 16 bytes: it must be dropped)" % (k, v[2] - v[3]))
             if v[0] not in (0, 1):
                 return "outcome: op %d -> %s" % (k, v[:3])
         elif tag == 11:
